@@ -11,3 +11,10 @@
 (define-fun abs_int ((a Int)) Int (ite (>= a 0) a (- a)))
 ; truncation toward zero of a real (Go's float -> int conversion for values in range)
 (define-fun trunc ((r Real)) Int (ite (>= r 0.0) (to_int r) (- (to_int (- r)))))
+; math.Round: nearest integer, halves away from zero (as a real)
+(define-fun roundHalfAway ((r Real)) Real
+  (ite (>= r 0.0) (to_real (to_int (+ r 0.5))) (- (to_real (to_int (+ (- r) 0.5))))))
+; rounding to 9 decimals as tms20.roundFloat(f, 9) does it
+(define-fun round9 ((r Real)) Real (/ (roundHalfAway (* r 1000000000.0)) 1000000000.0))
+; math.Log2 as an uninterpreted function of a real; the call site adds bracketing facts (exact on powers of two)
+(declare-fun log2r (Real) Real)
